@@ -62,15 +62,16 @@ def repo_includes():
     src = (src.replace("@CMAKE_PROJECT_VERSION_MAJOR@", ver[0]).replace("@CMAKE_PROJECT_VERSION_MINOR@", ver[1])
            .replace("@CMAKE_PROJECT_VERSION_PATCH@", ver[2]).replace("@CMAKE_PROJECT_VERSION@", ".".join(ver)))
     open(os.path.join(inc, "version.hpp"), "w").write(src)
-    ov = os.path.join(d, "overlay", "smooth", "manifolds")
-    os.makedirs(ov)
-    sm = open(os.path.join(REPO, "include", "smooth", "manifolds", "submanifold.hpp")).read()
+    # clang-14 only: a per-run COPY of /repo/include with one mechanical rewrite (P0634 'typename') in
+    # manifolds/submanifold.hpp; every other file is byte-identical, so edits to the real tree are what gets checked
+    ov = os.path.join(d, "overlay")
+    shutil.copytree(os.path.join(REPO, "include"), ov)
+    smp = os.path.join(ov, "smooth", "manifolds", "submanifold.hpp")
+    sm = open(smp).read()
     sm2, n = re.subn(r"=\s*man<M>::Scalar;", "= typename man<M>::Scalar;", sm)
     if n:
         log.append("overlay: submanifold.hpp 'man<M>::Scalar' -> 'typename man<M>::Scalar' (%d)" % n)
-    # the overlay file includes siblings by relative path -> make them resolvable
-    sm2 = sm2.replace('#include "../', '#include "smooth/')
-    open(os.path.join(ov, "submanifold.hpp"), "w").write(sm2)
+        open(smp, "w").write(sm2)
     return os.path.join(d, "include"), os.path.join(d, "overlay"), log
 
 
@@ -104,7 +105,9 @@ def include_flags(clang):
     fl = []
     if clang:
         fl += ["-isystem", os.path.join(BUILD, "shim"), "-I", ov]
-    fl += ["-I", os.path.join(REPO, "include"), "-I", gen, "-I", os.path.join(VERIF, "harness"), "-isystem", "/usr/include/eigen3"]
+    else:
+        fl += ["-I", os.path.join(REPO, "include")]
+    fl += ["-I", gen, "-I", os.path.join(VERIF, "harness"), "-isystem", "/usr/include/eigen3"]
     return fl, log
 
 
